@@ -414,6 +414,127 @@ fn check_state(blob: &MerkleBlob, model: &Model, after: &str) -> Result<(), Fail
     Ok(())
 }
 
+
+/// Every other read-only view of the blob must tell the same story as the model: the tree as
+/// reachable from the root through `get_node` (no use of the volatile index), the key index,
+/// the per-key leaf lookup, the hash->index views and the lineage of each leaf. Structure only;
+/// internal hashes are checked after `calculate_lazy_hashes` (check_hashes).
+fn check_views(blob: &MerkleBlob, model: &Model, after: &str) -> Result<(), Fail> {
+    let n = model.kv.len();
+    let nblocks = blob.read_blob().len() / BLOCK_SIZE;
+    let mism = |what: &str, detail: String| fail(format!("view_mismatch:{what}:after_{after}"), detail);
+    // unknown keys / hashes are unknown to every view
+    let absent_key = (0..).map(|i| 7_777_777_i64 + i).find(|k| !model.kv.contains_key(k)).unwrap();
+    match guard(|| (blob.get_key_index(KeyId(absent_key)).is_ok(), blob.get_leaf_by_key(KeyId(absent_key)).is_ok(), blob.get_proof_of_inclusion(KeyId(absent_key)).is_ok())) {
+        Err(p) => return Err(fail(format!("panic:views_absent_key:after_{after}"), p)),
+        Ok((false, false, false)) => {}
+        Ok(o) => return Err(mism("absent_key_found", format!("key {absent_key} is not in the map but (index, leaf, proof) lookups succeed: {o:?}"))),
+    }
+    let absent_hash = (0..).map(|i| 0xFFFF_0000_0000_u64 + i).find(|h| !model.hashes.contains_key(h)).unwrap();
+    match guard(|| blob.get_node_by_hash(hash_of(absent_hash)).is_ok()) {
+        Err(p) => return Err(fail(format!("panic:views_absent_hash:after_{after}"), p)),
+        Ok(false) => {}
+        Ok(true) => return Err(mism("absent_hash_found", "a leaf hash that is not in the map resolves to a key".into())),
+    }
+    if n > 64 {
+        return Ok(());
+    }
+    // (a) the tree as reachable from the root
+    let walked: Result<Vec<(TreeIndex, i64, i64, Hash)>, String> = guard(|| {
+        let mut out = vec![];
+        if nblocks == 0 {
+            return Ok(out);
+        }
+        let mut stack = vec![(TreeIndex(0), None::<TreeIndex>)];
+        let mut visited = 0usize;
+        while let Some((i, parent)) = stack.pop() {
+            visited += 1;
+            if visited > nblocks {
+                return Err("cycle or more reachable nodes than blocks".to_string());
+            }
+            let node = blob.get_node(i).map_err(|e| format!("get_node({i}): {e}"))?;
+            if node.parent().0 != parent {
+                return Err(format!("node {i} has parent {:?}, reached from {parent:?}", node.parent().0));
+            }
+            match blob.get_parent_index(i) {
+                Ok(p) if p.0 == parent => {}
+                other => return Err(format!("get_parent_index({i}) = {other:?}, reached from {parent:?}")),
+            }
+            match node {
+                Node::Leaf(l) => out.push((i, l.key.0, l.value.0, l.hash)),
+                Node::Internal(x) => {
+                    stack.push((x.right, Some(i)));
+                    stack.push((x.left, Some(i)));
+                }
+            }
+        }
+        Ok(out)
+    })
+    .map_err(|p| fail(format!("panic:views_walk:after_{after}"), p))?;
+    let walked = walked.map_err(|e| mism("tree_structure", e))?;
+    let got: BTreeMap<i64, (i64, [u8; 32])> = walked.iter().map(|(_, k, v, h)| (*k, (*v, h.0.to_bytes()))).collect();
+    let want: BTreeMap<i64, (i64, [u8; 32])> = model.kv.iter().map(|(k, (v, h))| (*k, (*v, hash_of(*h).0.to_bytes()))).collect();
+    if got != want || walked.len() != n {
+        return Err(mism("tree_leaves", format!("walking the tree from the root finds {} leaves {:?}, the model has {:?}", walked.len(), got.iter().map(|(k, (v, _))| (*k, *v)).collect::<Vec<_>>(), model.kv.iter().map(|(k, (v, _))| (*k, *v)).collect::<Vec<_>>())));
+    }
+    // (b) leaf-only hash view and full hash views
+    let (leaf_hi, all_hi, all_h) = guard(|| (blob.get_hashes_indexes(true), blob.get_hashes_indexes(false), blob.get_hashes()))
+        .map_err(|p| fail(format!("panic:get_hashes:after_{after}"), p))?;
+    let leaf_hi = leaf_hi.map_err(|e| mism("get_hashes_indexes", e.to_string()))?;
+    let all_hi = all_hi.map_err(|e| mism("get_hashes_indexes", e.to_string()))?;
+    let all_h = all_h.map_err(|e| mism("get_hashes", e.to_string()))?;
+    if leaf_hi.len() != n {
+        return Err(mism("leaf_hashes", format!("get_hashes_indexes(leafs_only) has {} entries for {n} leaves", leaf_hi.len())));
+    }
+    for (i, k, v, h) in &walked {
+        if leaf_hi.get(h) != Some(i) {
+            return Err(mism("leaf_hashes", format!("leaf hash of key {k} maps to {:?}, the leaf is at {i}", leaf_hi.get(h))));
+        }
+        if all_hi.get(h) != Some(i) || !all_h.contains(h) {
+            return Err(mism("all_hashes", format!("leaf hash of key {k} missing from get_hashes/get_hashes_indexes")));
+        }
+        // (c) per-key lookups
+        let r = guard(|| (blob.get_key_index(KeyId(*k)), blob.get_leaf_by_key(KeyId(*k))))
+            .map_err(|p| fail(format!("panic:get_leaf_by_key:after_{after}"), p))?;
+        match r {
+            (Ok(ki), Ok((li, leaf, block)))
+                if ki == *i && li == *i && leaf.key.0 == *k && leaf.value.0 == *v && leaf.hash == *h && block.node == Node::Leaf(leaf) => {}
+            other => return Err(mism("leaf_by_key", format!("key {k} (leaf at {i}): lookups give {other:?}"))),
+        }
+        // (d) lineage from the leaf to the root
+        let lin = guard(|| (blob.get_lineage_with_indexes(*i), blob.get_lineage_indexes(*i)))
+            .map_err(|p| fail(format!("panic:get_lineage:after_{after}"), p))?;
+        let (lin, lin_idx) = match lin {
+            (Ok(a), Ok(b)) => (a, b),
+            other => return Err(mism("lineage", format!("key {k}: {other:?}"))),
+        };
+        let ok = !lin.is_empty()
+            && lin[0].0 == *i
+            && lin.last().map(|(x, nd)| *x == TreeIndex(0) && nd.parent().0.is_none()) == Some(true)
+            && lin.iter().map(|(x, _)| *x).collect::<Vec<_>>() == lin_idx
+            && lin.windows(2).all(|w| {
+                w[0].1.parent().0 == Some(w[1].0)
+                    && matches!(w[1].1, Node::Internal(x) if x.left == w[0].0 || x.right == w[0].0)
+            })
+            && lin.iter().all(|(x, nd)| blob.get_node(*x).ok() == Some(*nd));
+        if !ok {
+            return Err(mism("lineage", format!("key {k}: lineage {:?} is not the path from leaf {i} to the root", lin_idx)));
+        }
+    }
+    // every entry of the full view points at a node carrying that hash
+    let internal = n.saturating_sub(1);
+    if all_hi.len() > n + internal || all_h.len() != all_hi.len() {
+        return Err(mism("all_hashes", format!("{} / {} hashes listed for {n} leaves", all_hi.len(), all_h.len())));
+    }
+    for (h, i) in &all_hi {
+        match blob.get_node(*i) {
+            Ok(nd) if nd.hash() == *h && all_h.contains(h) => {}
+            other => return Err(mism("all_hashes", format!("hash listed at index {i} but the node there is {other:?}"))),
+        }
+    }
+    Ok(())
+}
+
 /// Checks that apply once hashes are recomputed: root = independent recomputation,
 /// every key has a valid proof ending in that root.
 fn check_hashes(blob: &MerkleBlob, model: &Model, c: &mut Counters) -> Result<(), Fail> {
@@ -696,9 +817,40 @@ impl C18 {
                 Op::Proofs => {
                     // exercise the call; before recomputation a Dirty error is legal
                     match snapshot_proofs(&blob, &model) {
-                        Ok(_) => Ok(Ok(())),
-                        Err(p) => Err(p),
+                        Ok(_) => {}
+                        Err(p) => bail!(fail("panic:get_proof_of_inclusion".into(), p)),
                     }
+                    // a clone is an equivalent blob, and changing it leaves the original alone
+                    let victim = model.kv.keys().next().copied();
+                    let r = guard(|| {
+                        let mut cl = blob.clone();
+                        if cl.read_blob() != blob.read_blob() {
+                            return Err("clone has different bytes".to_string());
+                        }
+                        let kv = cl.get_keys_values().map_err(|e| format!("clone content unreadable: {e}"))?;
+                        if kv != blob.get_keys_values().map_err(|e| e.to_string())? {
+                            return Err("clone has different content".to_string());
+                        }
+                        match victim {
+                            Some(k) => cl.delete(KeyId(k)).map_err(|e| format!("delete on clone: {e}"))?,
+                            None => cl
+                                .insert(KeyId(1), ValueId(1), &hash_of(u64::MAX - 5), InsertLocation::Auto {})
+                                .map(|_| ())
+                                .map_err(|e| format!("insert on clone: {e}"))?,
+                        }
+                        cl.check_integrity().map_err(|e| format!("clone integrity after change: {e}"))?;
+                        Ok(())
+                    });
+                    match r {
+                        Err(p) => bail!(fail("panic:clone".into(), p)),
+                        Ok(Err(e)) => bail!(fail("clone_not_equivalent".into(), e)),
+                        Ok(Ok(())) => {}
+                    }
+                    if blob.read_blob() != &before {
+                        bail!(fail("clone_not_independent".into(), "changing a clone changed the original's bytes".into()));
+                    }
+                    c.inc("clone_checks");
+                    Ok(Ok(()))
                 }
                 Op::RestartMem | Op::RestartFile => {
                     // crash point: only the bytes survive
@@ -828,6 +980,10 @@ impl C18 {
             if let Err(f) = check_state(&blob, &model, kind) {
                 bail!(f);
             }
+            if let Err(f) = check_views(&blob, &model, kind) {
+                bail!(f);
+            }
+            c.inc("view_checks");
             if matches!(op, Op::Lazy) {
                 if let Err(f) = check_hashes(&blob, &model, c) {
                     bail!(f);
